@@ -438,6 +438,7 @@ theorem ping_eq (fuel : Nat) (st : St) (n : Nat) (target : Ip) (pings : Nat) :
       | none => (st, false)
       | some nd =>
         if !nd.on then (st, false) else
+        if isLoopback target then (st, nd.ifaces.any (·.enabled)) else
         let res := (List.range pings).foldl (fun a _ => pingStep fuel n target st.nextId a) ({ st with nextId := st.nextId + 1 }, true)
         match res.1.node? n with
         | none => (res.1, false)
@@ -452,11 +453,13 @@ theorem ping_mono1 (fuel : Nat) (st : St) (n : Nat) (target : Ip) (pings : Nat) 
   · exact Or.inr rfl
   · split
     · exact Or.inr rfl
-    · simp only
-      rcases pingFold_mono fuel n target st.nextId (List.range pings) ({ st with nextId := st.nextId + 1 }, true) with h | h
-      · left
-        split <;> exact h
-      · rw [h]; exact Or.inr rfl
+    · split
+      · exact Or.inr rfl
+      · simp only
+        rcases pingFold_mono fuel n target st.nextId (List.range pings) ({ st with nextId := st.nextId + 1 }, true) with h | h
+        · left
+          split <;> exact h
+        · rw [h]; exact Or.inr rfl
 
 theorem requestService_mono1 (fuel : Nat) (st : St) (n : Nat) (server : Ip) :
     (requestService fuel st n server).1.oof = true ∨ requestService (fuel + 1) st n server = requestService fuel st n server := by
